@@ -8,6 +8,7 @@ import (
 	"os"
 	"os/exec"
 	"path/filepath"
+	"runtime"
 	"strings"
 	"syscall"
 
@@ -360,6 +361,72 @@ func c18Files(c *fw.Ctx) *fw.Outcome {
 		}
 		c.Count("cli_error_runs", 3)
 	}
+	// resources: whatever the outcome, the file-level helpers give back what they took. File descriptors of this
+	// process, goroutines, and the files of a directory of its own are counted around 300 calls of every kind.
+	rdir := filepath.Join(dir, "resources")
+	os.Mkdir(rdir, 0o755)
+	os.Mkdir(filepath.Join(rdir, "d.srt"), 0o755)
+	os.WriteFile(filepath.Join(rdir, "good.vtt"), []byte("WEBVTT\n\n00:01.000 --> 00:02.000\nhello\n"), 0o644)
+	os.WriteFile(filepath.Join(rdir, "bad.ttml"), []byte("<tt><body><div><p begin=\"x\">"), 0o644)
+	os.WriteFile(filepath.Join(rdir, "bad.stl"), []byte("short"), 0o644)
+	os.WriteFile(filepath.Join(rdir, "bad.ts"), bytes.Repeat([]byte{0x47, 0x1f, 0xff, 0x10}, 200), 0o644)
+	fds := func() int {
+		es, _ := os.ReadDir("/proc/self/fd")
+		return len(es)
+	}
+	names := func() string {
+		es, _ := os.ReadDir(rdir)
+		var l []string
+		for _, e := range es {
+			l = append(l, e.Name())
+		}
+		return strings.Join(l, " ")
+	}
+	calls := func() {
+		g, _ := astisub.OpenFile(filepath.Join(rdir, "good.vtt"))
+		for _, n := range []string{"bad.ttml", "bad.stl", "bad.ts", "missing.ssa", "d.srt", "good.xyz"} {
+			astisub.OpenFile(filepath.Join(rdir, n))
+			astisub.Open(astisub.Options{Filename: filepath.Join(rdir, n), Teletext: astisub.TeletextOptions{Page: 888}})
+		}
+		if g != nil {
+			for _, ext := range []string{"srt", "ssa", "stl", "ttml", "vtt"} {
+				g.Write(filepath.Join(rdir, "out."+ext))
+			}
+			g.Write(filepath.Join(rdir, "d.srt"))                          // a directory
+			g.Write(filepath.Join(rdir, "nodir", "o.srt"))                 // a missing directory
+			g.Write(filepath.Join(rdir, "out.xyz"))                        // no codec
+			astisub.NewSubtitles().Write(filepath.Join(rdir, "empty.srt")) // nothing to write
+		}
+	}
+	guard(calls) // warm-up: the runtime opens its poller on the first file operation
+	fd0, g0, n0 := fds(), runtime.NumGoroutine(), names()
+	for i := 0; i < 50; i++ {
+		if p := guard(calls); p != "" {
+			return bad("file-level helpers panicked: %s", p)
+		}
+	}
+	runtime.Gosched()
+	if fd1 := fds(); fd1 > fd0 {
+		return bad("file descriptors are left open by the file-level helpers: %d open before 50 rounds of OpenFile/Open/Write on good, malformed, missing and unwritable paths, %d after", fd0, fd1)
+	}
+	if g1 := runtime.NumGoroutine(); g1 > g0 {
+		return bad("goroutines are left behind by the file-level helpers: %d before, %d after", g0, g1)
+	}
+	if n1 := names(); n1 != n0 {
+		return bad("files are left behind by the file-level helpers: the directory held {%s} after the first round and holds {%s} after 50 more", n0, n1)
+	}
+	for _, stray := range strings.Fields(names()) {
+		switch stray {
+		case "d.srt", "good.vtt", "bad.ttml", "bad.stl", "bad.ts", "out.srt", "out.ssa", "out.stl", "out.ttml", "out.vtt":
+		case "empty.srt", "out.xyz":
+			// (a file created before the writer found nothing to write or no codec: the properties do not say what
+			// becomes of it, it is left as the library leaves it)
+		default:
+			return bad("an unexpected file %q is left in the directory by the file-level helpers", stray)
+		}
+	}
+	c.Count("resource_rounds", 50)
+	c.Count("file_descriptors_open_at_the_end", int64(fds()))
 	return nil
 }
 
